@@ -24,7 +24,8 @@ RULE = ("[phase 2: + lazy results requested under one configuration and consumed
         "iterators (`res`/`str`/`iter`/`next`), the implicit global configuration mixed with explicit ones, tables that "
         "share a format object or are re-formatted after a printing, mixed-type enum values, materialise-then-iterate, "
         "line-end characters in contents, the palette argument (none / palette class / palette object) with explicit or "
-        "implicit configuration and no_color] histories of 3-16 operations over 1-5 configurations (created, dropped with gc.collect(), made global), 1-2 enum "
+        "implicit configuration and no_color; round 5: line objects kept and rendered afterwards, two enum field types with "
+        "overlapping values (reference also from a fresh interpreter), equally named helper-made palette classes] histories of 3-16 operations over 1-5 configurations (created, dropped with gc.collect(), made global), 1-2 enum "
         "field types and 2-4 printable objects of all five kinds (pretty-printed data, tables incl. enum columns / limits / "
         "break lines / multi-line titles / truncation, record formats, git history reports over stub data, console help), "
         "each rendered coloured, without colours, line by line (before or after the whole text); streams: random, `reuse` "
@@ -32,7 +33,9 @@ RULE = ("[phase 2: + lazy results requested under one configuration and consumed
         "hands the freed palette addresses to the new palettes), `late` (descriptions that wait for ids registered by palette "
         "classes), `late-aba`. non-trivial = at least two renderings with a configuration change in between; distinct by "
         "protocol text")
-TRUSTED = ["shape extraction: a fresh copy of the object is rendered with tagging palettes (harness/c10.py:_mk_probe); the "
+TRUSTED = ["fresh-interpreter references: a server process that only imported the package forks one child per request "
+           "(used when a history has several enum field types, to see state shared between objects of a class)",
+           "shape extraction: a fresh copy of the object is rendered with tagging palettes (harness/c10.py:_mk_probe); the "
            "model never sees the layout code of PrettyPrinter / PPTable / PPRecordFmt / ReportFormatter / HDocItem",
            "the package's own description parser (_parse_init_str) and SGR element maker (_make_seq_element) feed the "
            "protocol (their correctness is C14 / C09)",
@@ -71,7 +74,30 @@ def _classes():
         ("GHistPalette", GHistReport.GHistPalette),
         ("HCmdPalette", HCommand.HCmdPalette),
         ("GlobalPalette", GlobalPalette),
+        ("AppPalette(APPA)", _user_classes()[0]),
+        ("AppPalette(APPB)", _user_classes()[1]),
     ]
+
+
+_USER = None
+
+
+def _user_classes():
+    """two palette classes for pretty-printed data made by one helper: same module and qualified name, different
+    syntax ids (one palette per application / theme); given as `palette=<class>`"""
+    global _USER
+    if _USER is None:
+        from ak.ppobj import PrettyPrinter
+        from ak.color import ConfColor
+
+        def mk_app_palette(app, num, key):
+            class AppPalette(PrettyPrinter.PPPalette):
+                SYNTAX_DEFAULTS = {app + ".NUM": num, app + ".KEY": key}
+                number = ConfColor(app + ".NUM")
+                name = ConfColor(app + ".KEY")
+            return AppPalette
+        _USER = [mk_app_palette("APPA", "RED:bold", "NAME:underline"), mk_app_palette("APPB", "CYAN", "MAGENTA/g4")]
+    return _USER
 
 
 _CID = None
@@ -316,7 +342,9 @@ class _Obj:
     def proto_kind(self):
         return {"rec": "rec", "hcmd": "hcmd"}.get(self.kind, "obj")
 
-    def top_class(self):
+    def top_class(self, pk="n"):
+        if pk in ("1", "2"):
+            return _user_classes()[int(pk) - 1]
         from ak.ppobj import PrettyPrinter, PPTable, PPRecordFmt
         from ak.ghist import GHistReport
         from ak.hdoc import HCommand
@@ -328,8 +356,8 @@ class _Obj:
         n: not at all, c: palette=<the palette class>, o: palette=<an object of it made from the configuration>"""
         if palette is not None:
             kw = dict(palette=palette)
-        elif pk == "c":
-            kw = dict(palette=self.top_class(), no_color=no_color, colors_conf=conf)
+        elif pk in ("c", "1", "2"):
+            kw = dict(palette=self.top_class(pk), no_color=no_color, colors_conf=conf)
         elif pk == "o":
             kw = dict(palette=self.top_class()(colors_conf=conf), no_color=no_color)
         else:
@@ -379,7 +407,8 @@ class _Obj:
         if mode in ("L", "M"):          # the whole text first, then the same result line by line
             whole = str(res)
             return (whole, [_line_str(l) for l in res])
-        lines = [_line_str(l) for l in res]
+        kept = list(res)                      # the line objects are kept and only then turned into text
+        lines = [_line_str(l) for l in kept]
         return (str(res), lines)
 
     def observe(self, conf, mode):
@@ -463,7 +492,7 @@ def _fresh(objs, o, enums, fmts=()):
     return _Obj(spec, enums, src, fmts)
 
 
-def shape_of(objs, o, enum_specs, vregs, fmts=()):
+def shape_of(objs, o, enum_specs, vregs, fmts=(), pk="n"):
     """(top class id, sub-palette requests, lines with the requests made since the previous line) of a fresh
     copy of the object; `vregs[e]` numbers the cell values of enum type e (by dict identity, as the cell cache
     does) consistently over a case"""
@@ -475,7 +504,8 @@ def shape_of(objs, o, enum_specs, vregs, fmts=()):
         enums[e] = ft
     obj = _fresh(objs, o, enums, fmts)
     log = []
-    probe = _mk_probe(obj.top_class(), log)
+    top = obj.top_class(pk)
+    probe = _mk_probe(top, log)
     lines, subs, seen = [], [], 0
     it = obj.iter_lines(None, False, palette=probe)
     while True:
@@ -502,7 +532,7 @@ def shape_of(objs, o, enum_specs, vregs, fmts=()):
     for c in log[seen:]:
         if c not in subs:
             subs.append(c)
-    return "%d %s %s" % (_cid(obj.top_class()), ",".join(map(str, subs)) or "-", "/".join(lines) or "-")
+    return "%d %s %s" % (_cid(top), ",".join(map(str, subs)) or "-", "/".join(lines) or "-")
 
 
 # ------------------------------------------------------------------ running a history on the real code
@@ -776,9 +806,10 @@ def _replay(case, before=None, after=None):
                 while n < op[2]:
                     n += 1
                     try:
-                        got.append(_line_str(next(it)))
+                        got.append(next(it))
                     except StopIteration:
                         break
+                got = [_line_str(l) for l in got]     # collected first, rendered afterwards
                 it = None
                 _capture(confs)
                 out.append("ok %d%s" % (len(got), "".join(" " + enc_str(l) for l in got)))
@@ -813,12 +844,13 @@ def _finish(case):
     vregs, lines, shapes = {}, [], {}
     live_enums, fmts = {}, {}
 
-    def shape(o):
+    def shape(o, pk="n"):
         spec = case["objs"][o]
         need = {e: live_enums[e] for e in spec.get("types", {}).values()}
-        key = (o, tuple(sorted(need)), fmts.get(o, ()))
+        pk = pk if pk in ("1", "2") else "n"
+        key = (o, tuple(sorted(need)), fmts.get(o, ()), pk)
         if key not in shapes:
-            shapes[key] = shape_of(case["objs"], o, need, vregs, fmts.get(o, ()))
+            shapes[key] = shape_of(case["objs"], o, need, vregs, fmts.get(o, ()), pk)
         return shapes[key]
     for op in case["ops"]:
         if op[0] == "conf":
@@ -837,7 +869,7 @@ def _finish(case):
             pk = op[4] if len(op) > 4 else "n"
             spec = case["objs"][o]
             kind = {"rec": "rec", "hcmd": "hcmd"}.get(spec["kind"], "obj")
-            lines.append("render %s %s %s %s %s" % (o, kind, k, mode + ("+" + pk if pk != "n" else ""), shape(o)))
+            lines.append("render %s %s %s %s %s" % (o, kind, k, mode + ("+" + pk if pk != "n" else ""), shape(o, pk)))
         elif op[0] == "setfmt":
             fmts[op[1]] = tuple(fmts.get(op[1], ())) + (op[2],)
             lines.append("setfmt %s %s" % (op[1], enc_str(op[2])))
@@ -915,7 +947,47 @@ def _reference(case, i, descr, nc, mode):
     if obj.kind == "hcmd":
         color.set_global_colors_config(conf)
         conf = None
-    return obj.observe(conf, mode)
+    pk = op[4] if op[0] == "render" and len(op) > 4 and op[4] in ("1", "2") else "n"
+    return _reply(obj.observe_raw(conf, mode, pk))
+
+
+# --- reference renderings in a fresh interpreter: a server process that has only imported the package forks a child
+# per request, so nothing any earlier rendering left behind (class-level or module-level state) can be shared with it
+_REF_SERVER = None
+_REF_CODE = """
+import sys, os, json
+from harness import c10
+c10._classes()
+out = sys.stdout
+for line in sys.stdin:
+    req = json.loads(line)
+    pid = os.fork()
+    if pid == 0:
+        try:
+            rep = c10._reference(req["case"], req["i"], req["descr"], req["nc"], req["mode"])
+        except Exception as e:
+            rep = "err " + type(e).__name__
+        out.write(json.dumps(rep) + "\\n")
+        out.flush()
+        os._exit(0)
+    os.waitpid(pid, 0)
+"""
+
+
+def _reference_fresh_process(case, i, descr, nc, mode):
+    global _REF_SERVER
+    import json
+    import subprocess
+    import sys
+    from harness import core
+    if _REF_SERVER is None or _REF_SERVER.poll() is not None:
+        env = dict(os.environ, PYTHONPATH=core.VERIF + os.pathsep + core.REPO, AK_PY_REPO=core.REPO, PYTHONHASHSEED="0")
+        _REF_SERVER = subprocess.Popen([sys.executable, "-c", _REF_CODE], stdin=subprocess.PIPE,
+                                       stdout=subprocess.PIPE, text=True, env=env, cwd=core.VERIF)
+    small = {k: case[k] for k in ("ops", "confs", "enums", "objs")}
+    _REF_SERVER.stdin.write(json.dumps({"case": small, "i": i, "descr": descr, "nc": nc, "mode": mode}) + "\n")
+    _REF_SERVER.stdin.flush()
+    return json.loads(_REF_SERVER.stdout.readline())
 
 
 _LATE_REPORTED = []
@@ -1036,6 +1108,9 @@ def oracle(case, replies):
             d_before, d_after, conf_nc = info[i]
             # (the lines consumed after the whole text are the lines of a fresh iteration: reference = lines first)
             ref = _reference(case, i, d_after, conf_nc, {"L": "l", "M": "m"}.get(mode, mode))
+            if ref == rep and len(case["enums"]) > 1 and case["objs"][o].get("types"):
+                # several enum field types in the process: also compare with a fresh interpreter
+                ref = _reference_fresh_process(case, i, d_after, bool(conf_nc), {"L": "l", "M": "m"}.get(mode, mode))
             if ref != rep:
                 msg = "object %s (%s) under configuration %s mode %s is rendered differently in a fresh state" % (o, kind, k, mode)
                 if _straddles(d_before, d_after) and not nc:
@@ -1247,7 +1322,7 @@ _ENUM_ACCS = ["name_good", "name_warn", "error", "value", "number", "keyword", "
 
 def _rand_enum(rng):
     vals = rng.sample([1, 2, 3, 10, 20, "A", "B", None], rng.randrange(1, 5))
-    spec = {"values": [[v, rng.choice(["one", "two", "Active", "off", "a b"]), rng.choice(_ENUM_ACCS)] for v in vals],
+    spec = {"values": [[v, rng.choice(["one", "two", "Active", "off", "a b", "x", "Waiting for approval", "no", "Suspended (temporarily)"]), rng.choice(_ENUM_ACCS)] for v in vals],
             "missing": None}
     if rng.random() < 0.3:
         spec["missing"] = ["<unk>", rng.choice(["error", "name_warn", "text"])]
@@ -1405,6 +1480,8 @@ def _pk(spec, rng):
     """how the palette argument is given: mostly not at all; the palette class; a palette object"""
     if spec["kind"] == "hcmd" or rng.random() < 0.7:
         return []
+    if spec["kind"] == "pp" and rng.random() < 0.5:
+        return [rng.choice("12")]           # one of two equally named palette classes made by a helper
     return [rng.choice("cco")]
 
 
@@ -1753,6 +1830,49 @@ def _gen_formats(rng):
     return _finish(case)
 
 
+def _gen_two_enums(rng):
+    """two enum field types with overlapping values and names of different lengths, columns of automatic width"""
+    vals = rng.sample([0, 1, 2, 3, "A", "B"], rng.randrange(2, 5))
+    short, long_ = ["on", "x", "ok", "no"], ["Waiting for approval", "Suspended", "Active now", "In progress (50%)"]
+    if rng.random() < 0.5:
+        short, long_ = long_, short
+    enums = {"0": {"values": [[v, rng.choice(short), rng.choice(_ENUM_ACCS)] for v in vals], "missing": None},
+             "1": {"values": [[v, rng.choice(long_), rng.choice(_ENUM_ACCS)] for v in vals], "missing": None}}
+    objs = {}
+    for e in ("0", "1"):
+        recs = [[i, rng.choice(vals)] for i in range(rng.randrange(1, 4))]
+        t = {"kind": "table", "fields": ["id", "st"], "records": recs, "types": {"st": e}}
+        if rng.random() < 0.4:
+            t["fmt"] = "id,st/" + rng.choice(["name", "full", "val"])
+        objs[e] = t
+    objs["2"] = {"kind": "rec", "fmt": "a,st", "fields": ["a", "st"], "types": {"st": "1"}, "record": [5, rng.choice(vals)]}
+    if not _shape_ok(objs["2"], enums):
+        del objs["2"]
+    confs = {"1": _rand_conf(rng, False)}
+    ops = [["enum", "0"], ["enum", "1"], ["conf", "1"]]
+    for o in rng.sample(sorted(objs), len(objs)) + [rng.choice(sorted(objs))]:
+        ops.append(["render", o, rng.choice(["1", "g"]), rng.choice("ccnl")])
+    case = {"ops": ops, "confs": confs, "enums": enums, "objs": objs, "meta": {"kind": "two-enums"}}
+    return _finish(case)
+
+
+def _gen_same_named(rng):
+    """two palette classes with the same module and qualified name and different SYNTAX_DEFAULTS under one configuration"""
+    objs = {"0": {"kind": "pp", "json": False, "value": {"d": [["k", [1, None, "s", 2.5]], ["n", 7]]}},
+            "1": {"kind": "pp", "json": rng.random() < 0.5, "value": _rand_json(rng, 2)}}
+    confs = {"1": _rand_conf(rng, False), "2": _rand_conf(rng, False)}
+    ops = [["conf", "1"], ["conf", "2"]]
+    if rng.random() < 0.5:
+        ops.append(["setglobal", "1"])
+    order = ["1", "2"] if rng.random() < 0.5 else ["2", "1"]
+    for pk in order + [rng.choice("12n")]:
+        k = rng.choice(["1", "1", "g", "2"])
+        op = ["render", rng.choice("001"), k, rng.choice("ccl")]
+        ops.append(op if pk == "n" else op + [pk])
+    case = {"ops": ops, "confs": confs, "enums": {}, "objs": objs, "meta": {"kind": "same-named-classes"}}
+    return _finish(case)
+
+
 def gen_cases(rng, tier):
     n = 600 if tier == "quick" else 9000
     for i in range(n):
@@ -1766,6 +1886,10 @@ def gen_cases(rng, tier):
             yield _gen_globalmix(rng)
         elif j in (5, 16):
             yield _gen_formats(rng)
+        elif j == 15:
+            yield _gen_same_named(rng)
+        elif j == 19:
+            yield _gen_two_enums(rng)
         else:
             pattern = "reuse" if i % 3 == 0 else "aba" if i % 10 == 7 else "random"
             yield _gen_history(rng, tier, late, pattern)
@@ -1925,7 +2049,7 @@ def tags(case, replies):
         if op[0] == "render":
             yield "render:%s:%s" % (case["objs"][op[1]]["kind"], op[3])
             if len(op) > 4:
-                yield "render:palette=" + {"c": "class", "o": "object"}[op[4]]
+                yield "render:palette=" + {"c": "class", "o": "object", "1": "helper-class", "2": "helper-class"}[op[4]]
         else:
             yield "op:" + op[0]
     yield "ops:%d" % min(len(case["ops"]), 15)
